@@ -498,6 +498,11 @@ pub fn check(case: &Case) -> CaseResult {
                 if &owned != values {
                     return Err(format!("into_iter() = {owned:?}"));
                 }
+                // both iterators are double-ended and exact-size: every adaptor and bulk consumer agrees
+                crate::props::c19::adaptors_agree("List::values()", true, || v.values(), &got, |x| x)?;
+                crate::props::c19::adaptors_agree("List::into_iter()", true, || v.clone().into_iter(), &owned, |x| x)?;
+                crate::props::c19::exact_size_agree("List::values()", || v.values(), got.len())?;
+                crate::props::c19::exact_size_agree("List::into_iter()", || v.clone().into_iter(), got.len())?;
                 let raw = v.into_raw_values();
                 if raw.len() != values.len() {
                     return Err("into_raw_values() length".to_string());
@@ -558,6 +563,15 @@ pub fn check(case: &Case) -> CaseResult {
                 let got: Vec<(String, String)> = v.iter().map(|p| (p.name.clone(), p.last_modified.raw().to_string())).collect();
                 if &got != ps {
                     return Err(format!("decoded {got:?}, sent {ps:?}"));
+                }
+                for (p, (_, raw)) in v.iter().zip(ps) {
+                    crate::props::c14::chrono_agrees(&p.last_modified, raw).map_err(|e| format!("playlist {:?}: {e}", p.name))?;
+                }
+                // playlists are routinely sorted by date: every pair must compare without surprises
+                for a in &v {
+                    for b in &v {
+                        let _ = (a.last_modified.cmp(&b.last_modified), a.last_modified == b.last_modified, a.last_modified.partial_cmp(&b.last_modified));
+                    }
                 }
                 Ok(())
             });
@@ -776,6 +790,9 @@ pub fn property(_tier: Tier) -> Property {
                 )
             }),
             check: Box::new(|u: &OnUsedConnection<Case>| {
+                if u.after_failed_conversions() {
+                    crate::streamlab::fail_some_typed_conversions_first();
+                }
                 let mut r = with_history(&u.history, || check(&u.case));
                 u.classify(&mut r);
                 r
